@@ -3,6 +3,9 @@
 #include "harness.hpp"
 #include "libphysica/Statistics.hpp"
 #include <cmath>
+#include <utility>
+#include <random>
+#include <vector>
 using namespace libphysica;
 #define BAD(name, call) { Outcome o = run_child([&]() { volatile double v = call; printf("%g\n", (double) v); }); report(name, o, violates_meaningless(o)); }
 #define GOOD(name, call) { Outcome o = run_child([&]() { volatile double v = call; (void) v; }); report(name, o, violates_meaningful(o)); }
@@ -16,6 +19,22 @@ int main()
 	BAD("PDF_Uniform with x_min > x_max", PDF_Uniform(0.5, 1.0, 0.0));
 	BAD("PDF_Uniform with x_min = x_max", PDF_Uniform(1.0, 1.0, 1.0));
 	BAD("CDF_Uniform with x_min > x_max", CDF_Uniform(0.5, 1.0, 0.0));
+	{
+		std::pair<double, double> mean(0.0, 0.0), neg(-1.0, 1.0), zero(1.0, 0.0), ok(1.0, 2.0);
+		BAD("PDF_Gauss_2D with sigma = (-1, 1)", PDF_Gauss_2D(0.3, 0.1, mean, neg));
+		BAD("PDF_Gauss_2D with sigma = (1, 0)", PDF_Gauss_2D(0.3, 0.1, mean, zero));
+		GOOD("PDF_Gauss_2D with sigma = (1, 2)", PDF_Gauss_2D(0.3, 0.1, mean, ok));
+	}
+	{
+		std::mt19937 g(1);
+		BAD("Sample_Uniform on the reversed interval [1, 0]", Sample_Uniform(g, 1.0, 0.0));
+		BAD("Sample_Poisson with mean -1", (double) Sample_Poisson(g, -1.0));
+		BAD("Sample_Poisson of a list with a negative mean", (double) Sample_Poisson(g, std::vector<double> {1.0, -0.5})[1]);
+		BAD("Sample_Gauss with sigma = -1", Sample_Gauss(g, 0.0, -1.0));
+		GOOD("Sample_Uniform(0, 1), Sample_Uniform(2, 2)", Sample_Uniform(g, 0.0, 1.0) + Sample_Uniform(g, 2.0, 2.0));
+		GOOD("Sample_Poisson(0), Sample_Poisson(3.5)", (double) (Sample_Poisson(g, 0.0) + Sample_Poisson(g, 3.5)));
+		GOOD("Sample_Gauss(0, 1)", Sample_Gauss(g, 0.0, 1.0));
+	}
 	BAD("PDF_Exponential with mean 0", PDF_Exponential(1.0, 0.0));
 	BAD("PDF_Maxwell_Boltzmann with a = -1", PDF_Maxwell_Boltzmann(1.0, -1.0));
 	BAD("PMF_Binomial with p = 1.5", PMF_Binomial(5, 1.5, 2));
